@@ -255,7 +255,10 @@ class Index:
         # spelling-level normal forms are applied; real tree and overlays alike
         from .normalform import inline_private_helpers
         self.inlined = inline_private_helpers({mi.path: mi.tree for mi in self.modules.values()})
+        from .normalform import dehoist_chains
+        self.dehoisted = 0
         for mi in self.modules.values():
+            self.dehoisted += dehoist_chains(mi.tree)
             self.canonicalised += _canon_returns(mi.tree) + _canon_augassign(mi.tree) + _canon_items(mi.tree)
         for mi in self.modules.values():
             self._scan_module(mi)
